@@ -140,10 +140,10 @@ prop("C11", [
 
 prop("C13", [
     {"name": "c13_queue", "sources": ["c13_queue.cc"], "c_sources": ["common/vsched.c"], "flavour": "asan",
-     "args": {"quick": ["--timeout-ms=120000", "--deadline-s=170"],
+     "args": {"quick": ["--timeout-ms=40000", "--deadline-s=170"],
               "thorough": ["--thorough=1", "--timeout-ms=3000000", "--deadline-s=2400"]}},
     {"name": "c13_queue_tsan", "sources": ["c13_queue.cc"], "c_sources": ["common/vsched.c"], "flavour": "tsan",
-     "args": {"quick": ["--timeout-ms=120000", "--deadline-s=170", "--last=12"],
+     "args": {"quick": ["--timeout-ms=40000", "--deadline-s=170", "--last=12"],
               "thorough": ["--timeout-ms=3000000", "--deadline-s=1200"]}},
 ],
     rule="one case = (P producers x k pushes, preemption bound, shard): stateless DFS over all schedules of the "
@@ -160,10 +160,10 @@ prop("C13", [
 
 prop("C12", [
     {"name": "c12_async", "sources": ["c12_async.cc"], "c_sources": ["common/vsched.c"], "flavour": "asan",
-     "args": {"quick": ["--maxbound=2", "--timeout-ms=120000", "--deadline-s=170"],
+     "args": {"quick": ["--maxbound=2", "--timeout-ms=40000", "--deadline-s=170"],
               "thorough": ["--thorough=1", "--maxbound=3", "--timeout-ms=3000000", "--deadline-s=2400"]}},
     {"name": "c12_async_tsan", "sources": ["c12_async.cc"], "c_sources": ["common/vsched.c"], "flavour": "tsan",
-     "args": {"quick": ["--maxbound=1", "--timeout-ms=120000", "--deadline-s=170"],
+     "args": {"quick": ["--maxbound=1", "--timeout-ms=40000", "--deadline-s=170"],
               "thorough": ["--maxbound=2", "--timeout-ms=3000000", "--deadline-s=1200"]}},
 ],
     rule="one case = (scenario, preemption bound): two or three real threads on real Async::Promise objects - "
@@ -177,3 +177,84 @@ prop("C12", [
     assumptions=COMMON_ASSUME + ["sequentially consistent interleavings at the hooked points"],
     bounds={"quick": "9 scenarios, preemption bound 0..2 (TSan pass: 0..1)",
             "thorough": "bound 0..3, and every schedule (unbounded) for the 2-thread scenarios (until the deadline)"})
+
+prop("C19", [
+    {"name": "c19_address", "sources": ["c19_address.cc"], "flavour": "asan",
+     "args": {"quick": ["--timeout-ms=60000", "--deadline-s=170"],
+              "thorough": ["--thorough=1", "--tab-log2=24", "--timeout-ms=600000", "--deadline-s=1500"]}},
+],
+    rule="one case = a block of inputs of one section: all dotted quads over 12 boundary octets x port texts; "
+         "127.0.0.1 and [::1] x every port 0..65535 and out-of-range / garbled port texts through all constructors "
+         "and Port(std::string); dot-joined part forms; IPv6 texts with every '::' position over groups {0,1,ffff}, "
+         "dotted-quad tails, ~200 curated texts and all their single-character edits; every string of length <= 7 "
+         "over '[ ] : 1 . a' (bracket/colon clutter); Address(Ipv6(g0..g7), Port); each evaluated on the real "
+         "Address / AddressParser / Port against an independent RFC 4291 / dotted-quad / port reader (inet_pton as "
+         "second opinion): host, port (80 when absent), family, print->parse round trip, invalid_argument for the "
+         "must-reject set; non-trivial = inputs that are not plain valid literals",
+    assumptions=COMMON_ASSUME + ["getaddrinfo is interposed to add AI_NUMERICHOST (no DNS in the sandbox); forms the "
+                                 "resolver accepts beyond strict literals (127.1, leading blanks/sign in ports) are "
+                                 "not in the must-reject set"],
+    bounds={"quick": "sections as listed (1.46 M inputs)", "thorough": "clutter length 8, parts 6, more group values (10.7 M inputs)"})
+
+prop("C20", [
+    {"name": "c20_base64", "sources": ["c20_base64.cc"], "flavour": "asan",
+     "args": {"quick": ["--timeout-ms=60000", "--deadline-s=170"],
+              "thorough": ["--thorough=1", "--tab-log2=24", "--timeout-ms=600000", "--deadline-s=1500"]}},
+],
+    rule="one case = a block of inputs: every byte string of length 0..2, length 3..4 over 16 boundary bytes, "
+         "b^n for all 256 b and lengths 0..300 plus rolling patterns (encode = own RFC 4648 encoder, decode(encode(x)) "
+         "= x); 10 829 user names x 17 passwords through Authorization::setBasicUserPassword / getBasicUser / "
+         "getBasicPassword; every string of length <= 6 over {A,b,9,+,/,=,!,0x80} and damaged valid encodings through "
+         "the decoder (twice: same result) with the text in a heap string whose bytes after the terminator are "
+         "poisoned; non-trivial = inputs other than the empty string",
+    assumptions=COMMON_ASSUME + ["decoder leniencies that do not touch memory outside the input (leading-run decoding, "
+                                 "non-zero pad bits) are recorded as outcomes, not violations"],
+    bounds={"quick": "lengths 0..300, invalid strings <= 6", "thorough": "lengths 0..1200, invalid strings <= 7"})
+
+prop("C16", [
+    {"name": "c16_headers", "sources": ["c16_headers.cc"], "flavour": "asan",
+     "args": {"quick": ["--timeout-ms=60000", "--deadline-s=170"],
+              "thorough": ["--thorough=1", "--timeout-ms=600000", "--deadline-s=1500"]}},
+],
+    rule="one case = a block of values of one header section: Cache-Control directive lists (<=3, thorough <=4, "
+         "deltas incl. 0), Connection / Content-Encoding / Transfer-Encoding / Expect values, Content-Length "
+         "(0..9999, 10^k+-1, 2^k+-1 up to 2^64-1), Content-Type from built MediaTypes, Authorization, Date (every "
+         "second of chosen days + every day 1700..2099), Host (names / IPv4 / bracketed IPv6 x ports), text headers; "
+         "oracle parse(write(h)) == h by accessors and write again gives identical text; lookup section: every "
+         "registered name under all capitalisations (all 2^n for short names, 1- and 2-letter flips otherwise) "
+         "through the real request / response parsers with tryGet / tryGetRaw / has, duplicates (first wins), "
+         "unregistered names and value bytes; non-trivial = values other than the simplest of each section",
+    assumptions=COMMON_ASSUME + ["Allow (no-op reader) and Accept (empty writer) have no round trip and are covered by "
+                                 "lookup only; Server tokens compare as joined text; Host port 0 reads back as 80"],
+    bounds={"quick": "1.2 M evaluations", "thorough": "7.2 M evaluations"})
+
+prop("C17", [
+    {"name": "c17_cookies", "sources": ["c17_cookies.cc"], "flavour": "asan",
+     "args": {"quick": ["--timeout-ms=60000", "--deadline-s=170"],
+              "thorough": ["--thorough=1", "--timeout-ms=600000", "--deadline-s=1500"]}},
+],
+    rule="one case = a block of cookies: names/values over cookie-octet samples x all 2^6 attribute subsets x Max-Age "
+         "{0,1,2^31-1} x Expires dates x 0..2 extension attributes (incl. names starting with a known attribute "
+         "name): fromRaw(write(c)) == c field by field on exact-size heap buffers; hand-ordered attribute "
+         "permutations; Cookie headers with n<=4 pairs (repeated names, with / without spaces) into a jar directly "
+         "and through the request parser: jar = exactly the listed pairs, pre- and post-increment iteration visit "
+         "each stored cookie once; mutated strings (suffixes over the C03 alphabet): exception, never a sanitizer "
+         "report; non-trivial = cookies with at least one attribute or mutated text",
+    assumptions=COMMON_ASSUME,
+    bounds={"quick": "436 K evaluations (mutation suffix <= 4)", "thorough": "52 M evaluations (suffix <= 6)"})
+
+prop("C18", [
+    {"name": "c18_mime", "sources": ["c18_mime.cc"], "flavour": "asan",
+     "args": {"quick": ["--timeout-ms=60000", "--deadline-s=170"],
+              "thorough": ["--thorough=1", "--timeout-ms=900000", "--deadline-s=1800"]}},
+],
+    rule="one case = a block of media-type texts: all (type x subtype x suffix) from the tables + vendor / extension "
+         "subtypes and suffixes (incl. names starting with a known one) x q in {none, 0, 0.01..1.00 and alternative "
+         "spellings} x 0..2 parameters x letter case; fromRaw on exact-size heap buffers and inside a larger buffer "
+         "with every following-byte class right after the given length (result must not depend on it); oracle: "
+         "top/sub/suffix/q/params equal the built ones, toString() == input; built objects written and parsed back; "
+         "mutated strings <= 5 (thorough 7) over {t,/,*,+,;,=,q,.,0,9,SP,NUL}: HttpError 415 or a parse the strict "
+         "reference also allows, no other exception type, no read at or beyond str+len",
+    assumptions=COMMON_ASSUME + ["texts a strict RFC 7231 recogniser refuses but pistache accepts leniently (e.g. '/' "
+                                 "inside an extension subtype) are recorded as an outcome class, not violations"],
+    bounds={"quick": "468 K evaluations", "thorough": "48 M evaluations"})
